@@ -346,6 +346,16 @@ def gen_sched_scenario(rng, **kw):
     return "\n".join(steps), invs, info
 
 
+def gen_sched_or_regen(rng, **kw):
+    """mostly scheduler scenarios; every fourth one a history whose manifest is regenerated (and reloaded) mid-invocation,
+    with pools, defaults, -f spellings and structural edits (from world.gen_history)"""
+    if rng.random() < 0.25:
+        import world
+        steps, invs, info = world.gen_history(rng, with_regen=rng.choice([True, True, "include"]), with_pools=True, nmax=7)
+        return "\n".join(steps), [{k: v for k, v in m.items() if k != "files"} for m in invs], info
+    return gen_sched_scenario(rng, **kw)
+
+
 # ----------------------------------------------------------------------------------------
 # running
 
